@@ -178,7 +178,7 @@ func verifC15Targets() {
 	for i := 0; i < nh; i++ {
 		pr := vUint16()
 		vAssume(pr <= 2)
-		full := i == 0 || vTier() > 0 // quick tier: only the first record varies in every field
+		full := i == 0 // only the first record varies in every field
 		h := dns.HTTPS{Priority: pr, NoDefaultALPN: full && vBool()}
 		if vBool() {
 			h.Target = "t1"
@@ -188,18 +188,16 @@ func verifC15Targets() {
 		}
 		// ALPN with one spare capacity slot, as slices produced by append usually have
 		na := (i + 1) % 3
-		if vTier() > 0 {
-			na = vInt(0, 1)
-		}
+
 		al := make([]string, na, na+1)
 		for j := range al {
 			al[j] = []string{"h2", "h3"}[j]
 		}
 		h.ALPN = al
-		if i%2 == 0 || (vTier() > 0 && vBool()) {
+		if i%2 == 0 {
 			h.ECH = []byte{0xEC, byte(i)}
 		}
-		if (i == 0 || vTier() > 0) && vBool() {
+		if i == 0 && vBool() {
 			h.IPv4Hint = []net.IP{vIP(4)}
 			h.IPv6Hint = []net.IP{vIP(16)}
 		}
